@@ -738,4 +738,5 @@ def c05_obligations(seed, tier='quick'):
 
 
 def c06_obligations(seed, tier='quick'):
-    return [utility_obs()[2]] + cash_obs() + price_obs()
+    from contracts import training as TR
+    return [utility_obs()[2]] + cash_obs() + price_obs() + [TR.n_times_wiring_ob('price'), TR.ensemble_mean_loop_ob(props=('C06',))]
